@@ -26,6 +26,7 @@ is limited to <= 1 character in all families and the defect is exercised by the 
 """
 import glob
 import itertools
+import json
 import os
 import re
 
@@ -998,6 +999,25 @@ class Builder:
                 self.single_break(g, prog, r, li, gi)
                 self.single_ws(g, prog, r, li, gi)
 
+    def do_corpus(self):
+        """corpus/C10/*.json: {"name", "base": payload, "variants": [{"payload", "rewrite"}], "text_preserving": bool,
+        "invalid_base": bool} - hand seeds and minimised past failures, run first"""
+        for path in sorted(glob.glob(os.path.join(core.VERIF, 'corpus', 'C10', '*.json'))):
+            try:
+                with open(path, encoding='utf-8') as fh:
+                    seed = json.load(fh)
+                base, variants = seed['base'], seed['variants']
+            except (OSError, ValueError, KeyError):
+                self.info['corpus_unreadable'] = self.info.get('corpus_unreadable', 0) + 1
+                continue
+            name = 'corpus:' + seed.get('name', os.path.basename(path))
+            prog = _RawProg(source_of(base), name, [])
+            g = self.group(prog, 'corpus', invalid=bool(seed.get('invalid_base')))
+            self.cases[-1]['payload'] = base
+            for v in variants:
+                self.add(g, prog, v['payload'], 'corpus', v.get('rewrite', 'corpus variant'), bool(seed.get('text_preserving')),
+                         invalid=bool(seed.get('invalid_base')))
+
     def do_invalid(self):
         r = self.r
         for name, text in INVALID.items():
@@ -1168,11 +1188,46 @@ def split_units(prog):
     return ['\n'.join(u) + '\n' for u in units]
 
 
+def logical_keys(payload):
+    """(statement kind, tokens) of every logical line of a worker payload, by this module's own layout rules; None for a
+    line outside the tokenizer's grammar.  Raises ValueError on a dangling continuation."""
+    parts = payload['chunks'] if 'chunks' in payload else [payload['text']]
+    phys = []
+    for c in parts:
+        phys.extend(re.split(r'\r?\n', c))
+    out = []
+    for it in assemble(phys):
+        if it[0] == 'line':
+            an = analyse(it[2])
+            out.append(an.key() if an is not None else None)
+    return out
+
+
+def selfcheck(cases):
+    """generator sanity (independent of the implementation): every variant of a valid base has the base's sequence of
+    tokenized logical lines.  Returns the list of offending case indices (expected: empty)."""
+    bad = []
+    base = {}
+    for i, c in enumerate(cases):
+        if c.get('invalid_base'):
+            continue
+        try:
+            k = logical_keys(c['payload'])
+        except ValueError:
+            k = 'dangling'
+        if c.get('base'):
+            base[c['group']] = k
+        elif k != base[c['group']]:
+            bad.append(i)
+    return bad
+
+
 def build_cases(r, tier):
     """r: random.Random (the only randomness). tier 'quick' | 'thorough'.
     Returns a list of case dicts: 'payload' (for the parse_script worker), 'tag' (rewrite family), 'group' (all cases of a
     group are layouts of the same base program; the base case has 'base': True and comes first), 'rewrite' (description)."""
     b = Builder(r, tier)
+    b.do_corpus()
     b.do_hand()
     b.do_invalid()
     b.do_quarantine()
